@@ -211,6 +211,7 @@ theorem prop_dev_guard (s : Sys) (id : PropId) (env : Env) (r : DevReq)
                             reduceCtorEq] at h
                           exact hfin _ h.symm ⟨rfl, rfl, rfl, rfl⟩ (Or.inl ⟨rfl, hdev⟩)
       · split at h <;> simp [Plan.nop] at h
+      · split at h <;> simp [Plan.nop] at h
     · split at h
       · exact absurd h (propAbort_nodev s p r)
       · split at h
